@@ -64,7 +64,7 @@ derive
 derive
 @*/
 /*@ extract src/consensus/votor.rs :: struct Votor
-rewrite[ghost-field] `all2all: Arc<A>,` => `all2all: Arc<A>, sent: Ghost<Seq<(Slot, VoteKind)>>,`
+rewrite[ghost-field] `all2all: Arc<A>,` => `all2all: Arc<A>, sent: Ghost<Seq<(Slot, VoteKind)>>, fwd: Ghost<Seq<ConsensusMessage>>,`
 @*/
 
 impl Cert {
@@ -297,6 +297,12 @@ ensures
 }
 impl Clone for BlockInfo { #[verifier::external_body] fn clone(&self) -> (r: Self) ensures r == *self { unimplemented!() } }
 
+// R9: element clones of the by-value `for` loops over Vec<Cert> / Vec<Vote> (the loops move the elements out)
+#[verifier::external_body]
+pub fn verif_clone_cert(c: &Cert) -> (r: Cert) ensures r == *c { unimplemented!() }
+#[verifier::external_body]
+pub fn verif_clone_vote(v: &Vote) -> (r: Vote) ensures r == *v { unimplemented!() }
+
 impl<A: All2All> Votor<A> {
     // `self.broadcast(msg)` (All2All network send through &self) renamed by rewrite R3b: a cast vote is
     // appended to the ghost log; nothing else changes.  ASSUMED: the network layer delivers what it is given.
@@ -510,11 +516,16 @@ after `state.pending_block = None;`
             slot.0 % SLOTS_PER_WINDOW == 0,
     { unimplemented!() }
 
-    // Rewrite R8 wrappers for the two iterator-chain / loop statements that only re-broadcast or collect
+    // `self.broadcast(msg)` inside the standstill arm, renamed by rewrite R3b: re-broadcast of an already cast vote or a
+    // held certificate (no new vote is cast); the message is appended to the second ghost log `fwd`, nothing else changes.
     #[verifier::external_body]
-    pub fn verif_rebroadcast_bundle(&self, certs: Vec<Cert>, votes: Vec<Vote>)
-        // for cert in certs { self.broadcast(cert.into()) }  for vote in votes { self.broadcast(vote.into()) }:
-        // re-broadcast of already cast votes / held certificates; casts no new vote
+    pub fn verif_rebroadcast(&mut self, msg: ConsensusMessage)
+        ensures
+            final(self).fwd@ == old(self).fwd@.push(msg),
+            final(self).sent == old(self).sent,
+            final(self).slots == old(self).slots,
+            final(self).same_env(old(self)),
+            final(self).voting_key == old(self).voting_key,
     { unimplemented!() }
     #[verifier::external_body]
     pub fn verif_slots_with_pending_block(&self) -> (r: Vec<Slot>)
@@ -655,10 +666,13 @@ ensures
 /*@ extract src/consensus/votor.rs :: impl Votor<A>/fn handle_pool_event
 props C05 C18
 elide-async
+rewrite[R3b] `self.broadcast(cert.into())` => `self.verif_rebroadcast(ConsensusMessage::Cert(cert))`
+rewrite[R3b] `self.broadcast(vote.into())#2` => `self.verif_rebroadcast(ConsensusMessage::Vote(vote))`
+rewrite[R4] `for cert in certs {` => `let verif_certs = certs; let mut verif_ci: usize = 0; while verif_ci < verif_certs.len() { let cert = verif_clone_cert(&verif_certs[verif_ci]); verif_ci += 1;`
+rewrite[R4] `for vote in votes {` => `let verif_votes = votes; let mut verif_vi: usize = 0; while verif_vi < verif_votes.len() { let vote = verif_clone_vote(&verif_votes[verif_vi]); verif_vi += 1;`
 rewrite*[R3b] `self.broadcast(` => `self.verif_broadcast(`
 rewrite*[R8] `vote.into()` => `ConsensusMessage::Vote(vote)`
 rewrite*[R3b] `self.try_skip_window(slot);` => `self.try_skip_window(slot, Ghost(Some(slot)));`
-rewrite[R8] `for cert in certs { self.verif_broadcast(cert.into()); } for vote in votes { self.verif_broadcast(ConsensusMessage::Vote(vote)); }` => `self.verif_rebroadcast_bundle(certs, votes);`
 requires
         old(self).inv(),
         // what the pool guarantees for the events it sends (C06 / C07): a ParentReady names the first slot of a window
@@ -668,6 +682,11 @@ requires
 ensures
         final(self).inv(),
         old(self).sent@.is_prefix_of(final(self).sent@),
+        // [C18.standstill_bundle_forwarded_completely] every certificate and every vote of the bundle is re-broadcast,
+        // in order, whatever the pruning state; no new vote is cast
+        event matches PoolEvent::Standstill(_, certs, votes) ==> final(self).sent@ == old(self).sent@
+            && final(self).fwd@ == old(self).fwd@ + Seq::new(certs@.len(), |i: int| ConsensusMessage::Cert(certs@[i]))
+                + Seq::new(votes@.len(), |i: int| ConsensusMessage::Vote(votes@[i])),
         // [C05.fallback_votes_only_on_their_safe_to_event]
         forall|i: int| old(self).sent@.len() <= i < final(self).sent@.len() ==> match (#[trigger] final(self).sent@[i]).1 {
             VoteKind::NotarFallback(h) => event == PoolEvent::SafeToNotar((final(self).sent@[i].0, h)),
@@ -678,6 +697,24 @@ ensures
         },
 before `let slot = event.slot();`
         let ghost pre = *self;
+        let ghost ev0 = event;
+loop 0
+        invariant
+            pre == *old(self) && pre.inv(),
+            ev0 matches PoolEvent::Standstill(_, cs, vs) && cs == verif_certs && vs == votes,
+            verif_ci <= verif_certs@.len(),
+            self.sent == pre.sent && self.slots == pre.slots && self.same_env(&pre) && self.voting_key == pre.voting_key,
+            self.fwd@ =~= pre.fwd@ + Seq::new(verif_ci as nat, |i: int| ConsensusMessage::Cert(verif_certs@[i])),
+        decreases verif_certs@.len() - verif_ci,
+loop 1
+        invariant
+            pre == *old(self) && pre.inv(),
+            ev0 matches PoolEvent::Standstill(_, cs, vs) && cs == verif_certs && vs == verif_votes,
+            verif_vi <= verif_votes@.len(),
+            self.sent == pre.sent && self.slots == pre.slots && self.same_env(&pre) && self.voting_key == pre.voting_key,
+            self.fwd@ =~= pre.fwd@ + Seq::new(verif_certs@.len(), |i: int| ConsensusMessage::Cert(verif_certs@[i]))
+                + Seq::new(verif_vi as nat, |i: int| ConsensusMessage::Vote(verif_votes@[i])),
+        decreases verif_votes@.len() - verif_vi,
 after `self.state_mut(slot).parents_ready.insert(parent);`
         proof {
             assert forall|t: Slot| t != slot implies #[trigger] self.st(t) == pre.st(t) by {}
@@ -733,6 +770,13 @@ blockend `Vote::new_skip_fallback(`
                 (if i == pre.sent@.len() { #[trigger] self.sent@[i] == (slot, VoteKind::SkipFallback) } else { self.sent@[i].1 is Skip }) by {
                 if i == pre.sent@.len() { assert(self.sent@[i] == base[i]); }
             }
+        }
+blockend `let verif_votes = votes;`
+        proof {
+            assert forall|t: Slot| #[trigger] self.st(t) == pre.st(t) by {}
+            assert(self.sent@ == pre.sent@);
+            assert(self.lo() == pre.lo());
+            assert(self.inv());
         }
 @*/
 
